@@ -1,0 +1,13 @@
+//! Scheduling points for the deterministic-simulation harness kept outside this repository.
+//!
+//! Compiled only with `--cfg avra_rs_verif`; the harness defines the extern symbol and decides
+//! at every point which caller thread runs next. Without the flag nothing of this exists.
+
+extern "C" {
+    fn avra_rs_verif_yield(site: u32);
+}
+
+#[inline]
+pub fn yield_point(site: u32) {
+    unsafe { avra_rs_verif_yield(site) }
+}
